@@ -14,7 +14,8 @@ RULE = ("the real qmail-local main() (ASan+UBSan build of the working tree; fork
         "around 1024/2048/3072; every call index x the same fault kinds, plus lock failure followed by a write failure; 2 and 3 concurrent deliveries as threads "
         "with every schedule of open/flock/write/fsync/ftruncate/close enumerated depth-first (capped at %s per configuration) plus seeded random schedules, "
         "with and without a failing write; %s seeded random single deliveries. gfrom(): every string over {>,F,r,o,m,space,LF,f} up to length %s; myctime(): "
-        "about 4000 instants incl. leap days, century years, 2^31. Every trace is replayed through the Lean acceptors Md.accept / Mb.sysStep (first rejected "
+        "about 4000 instants incl. leap days, century years, 2^31. The results of the program's own lseek calls (seek_end, pos = seek_cur) are traced and fed to the "
+        "model, which requires them to be the current file length and to come after the lock. Every trace is replayed through the Lean acceptors Md.accept / Mb.sysStep (first rejected "
         "event = disagreement); the oracle is the maildir predicate on the concrete crash states and the mbox(5) reader mboxRead on the concrete final file. "
         "non-trivial = distinct case")
 
@@ -90,10 +91,12 @@ run_standard("C12", "Nq.Props.C12", "drv_c12", "harness/c12_local.c", None, [],
              assumptions=["OS semantics of DESIGN.md 1.4 as implemented by harness/sim.c: link/unlink/open(O_EXCL) atomic and synchronous, link fails if the target "
                           "exists; data written since the last fsync of a file may be lost or arbitrary after a machine crash; fsync makes it durable; "
                           "O_APPEND writes go to the current end of the file; flock is a mutex on the file, dropped by close and by process exit",
+                          "files present in new/ before the delivery staying untouched is judged by the oracle on the concrete crash states (not a theorem); "
                           "maildir names: the pair (time, pid) is not shared by two delivering processes on one host (the uniqueness argument of maildir(5)); "
                           "a name already taken is detected by open_excl / link, which the harness exercises",
-                          "if lock_ex() itself fails the program proceeds unlocked (flaglocked = 0) and then neither serialisation nor roll-back holds: "
-                          "this is a hypothesis of C12_mbox_serial / C12_mbox_rollback, exercised by the harness (lock failure + write failure) and counted "
+                          "if lock_ex() itself fails the program proceeds unlocked (flaglocked = 0) and then neither serialisation nor roll-back holds; the result of "
+                          "ftruncate is ignored by the code, so a failing ftruncate leaves the partial entry: both are excluded by the hypothesis Benign of "
+                          "C12_mbox_serial / _final / _rollback / _append, exercised by the harness (lock failure + write failure) and counted "
                           "in input_distribution.outside_hypotheses_lock_or_truncate_failed, not hidden",
                           "one delivery instruction per run (aliasempty = ./Maildir/ or ./Mailbox); the .qmail interpretation around it is C13",
                           "mbox deliveries are not crash-atomic (maildir(5) says so); C12 claims roll-back on write errors only"])
